@@ -210,6 +210,7 @@ class Check:
         self.discharged = 0
         self.statement_names = []
         self.assumptions_printed = {}
+        self.coqchk = None
         self.anchors_meta = []
         self.corr = {}            # name -> stats
         self.oracle = {}          # name -> stats
@@ -277,6 +278,20 @@ class Check:
                         for e in parse_coq_errors(out2) or [{"file": f, "line": 0, "statement": None, "error": out2[-400:]}]:
                             self.broken.append({"kind": "proof", "name": e["statement"] or f, "detail": e["error"]})
                     self._parse_assumptions(vf, out2)
+            # thorough tier: re-check the compiled property files (and everything they depend on) with the independent checker
+            if ok and self.tier == "thorough":
+                self.coqchk = {}
+                mods = ["Acryo." + f[:-2].replace("/", ".") for f in property_files]
+                rc3, out3, dt3 = sh(["coqchk", "-silent", "-o"] + COQ_Q + mods, cwd=COQ, timeout=2400)
+                summary = out3[out3.find("CONTEXT SUMMARY"):] if "CONTEXT SUMMARY" in out3 else out3[-800:]
+                m = re.search(r"\* Axioms:(.*?)\n\s*\n?\* Constants", summary, re.S)
+                axioms = [a.strip() for a in (m.group(1) if m else "").splitlines() if a.strip() and a.strip() != "<none>"]
+                unsafe = [l.strip() for l in summary.splitlines() if l.strip().startswith("* ") and "Axioms" not in l and "Theory" not in l and not l.strip().endswith("<none>")]
+                self.coqchk = {"modules": mods, "exit": rc3, "wall_s": round(dt3, 1), "axioms": axioms, "flags_not_none": unsafe}
+                self.log(f"coqchk -o exit={rc3} in {dt3:.0f}s axioms={axioms or 'none'}")
+                if rc3 != 0 or unsafe:
+                    ok = False
+                    self.broken.append({"kind": "proof", "name": "coqchk", "detail": (summary or out3)[-600:]})
         self.log(f"coq build {'ok' if ok else 'FAILED'} in {dt:.1f}s; statements={self.obligations}")
         self.discharged = self.obligations if ok else max(0, self.obligations - len([b for b in self.broken if b['kind'] == 'proof']))
         return ok
@@ -446,6 +461,7 @@ class Check:
                 "trusted_base": self.trusted_base,
                 "statements": self.statement_names,
                 "assumptions_printed": self.assumptions_printed,
+                "coqchk": getattr(self, "coqchk", None) or "not run in this tier (thorough only)",
                 "anchors": self.anchors_meta,
                 "correspondence": self.corr,
                 "numeric_oracle": self.oracle,
